@@ -951,6 +951,23 @@ theorem unq_strOf_canonOpt (U : List UInt8) (hU : (0x25 : UInt8) ∈ U) (hA : As
   | none => simp [canonOpt, strOf_none, safelyUnquote_nil]
   | some x => rw [strOf_canonOpt_some, safelyUnquote_idem' U hU hA]
 
+/-- the same two facts for a user name / password (`safely_unquote_auth_item` is the partial
+followed by `requoteNfkc`, FX-C01-NFKCUSERINFO) -/
+theorem strOf_canonOpt_some_auth (x : Str) :
+    strOf (canonOpt false unquoteAuthItem (some x)) = unquoteAuthItem x := by
+  by_cases hx : x.isEmpty = true
+  · have : x = [] := by simpa using hx
+    subst this
+    simp [canonOpt, strOf_some, unquoteAuthItem_nil]
+  · simp [canonOpt, hx, strOf_some, requote]
+
+theorem unq_strOf_canonOpt_auth (o : Option Str) :
+    unquoteAuthItem (strOf (canonOpt false unquoteAuthItem o)) =
+      strOf (canonOpt false unquoteAuthItem o) := by
+  cases o with
+  | none => simp [canonOpt, strOf_none, unquoteAuthItem_nil]
+  | some x => rw [strOf_canonOpt_some_auth, unquoteAuthItem_idem]
+
 theorem canonHost_nil (puny : Str → Str) : canonHost puny [] = [] := by
   simp [canonHost, decodePunycodeHostname, splitOn_nil, join, Py.lower]
 
@@ -1377,10 +1394,8 @@ theorem canonParts_reparsed (hpath : PathIdem) :
       subst e
       by_cases hc : strOf cp ≠ [] ∨ strOf (canonOpt false unquoteAuthItem p.username) ≠ []
       · rw [if_pos hc]
-        have := strOf_canonOpt_some Gen.Quote.unsafeForAuthItem
-          (strOf (canonOpt false unquoteAuthItem p.username))
-        rw [show unquoteAuthItem = safelyUnquote Gen.Quote.unsafeForAuthItem from rfl] at *
-        rw [this]; exact unq_strOf_canonOpt _ hU asciiSet_auth _
+        have := strOf_canonOpt_some_auth (strOf (canonOpt false unquoteAuthItem p.username))
+        rw [this]; exact unq_strOf_canonOpt_auth _
       · rw [if_neg hc]
         simp only [not_or, Classical.not_not] at hc
         rw [hc.2]; simp [canonOpt, strOf_none]
@@ -1391,10 +1406,8 @@ theorem canonParts_reparsed (hpath : PathIdem) :
       subst e
       by_cases hc : strOf (canonOpt false unquoteAuthItem p.password) ≠ []
       · rw [if_pos hc]
-        have := strOf_canonOpt_some Gen.Quote.unsafeForAuthItem
-          (strOf (canonOpt false unquoteAuthItem p.password))
-        rw [show unquoteAuthItem = safelyUnquote Gen.Quote.unsafeForAuthItem from rfl] at *
-        rw [this]; exact unq_strOf_canonOpt _ hU asciiSet_auth _
+        have := strOf_canonOpt_some_auth (strOf (canonOpt false unquoteAuthItem p.password))
+        rw [this]; exact unq_strOf_canonOpt_auth _
       · rw [if_neg hc]
         simp only [Classical.not_not] at hc
         rw [hc]; simp [canonOpt, strOf_none]
